@@ -39,6 +39,8 @@ namespace avel {
             sh(l - vec8x32i{1}),
             d(d) {}
 
+    public:
+
         //=================================================
         // Arithmetic Operations
         //=================================================
